@@ -6,11 +6,12 @@
     Forgetting the owners gives [LV.Spec.Specs.SetSpec] for insert / update / erase / contains. *)
 From Coq Require Import ZArith List String Bool Lia PeanoNat.
 From LV Require Import Base.Conc Base.Events Base.Lin Spec.Specs Proofs.LinProofs.
+From LV Require Model.StripingPolicy.
 Import ListNotations.
 Local Open Scope nat_scope.
 
 
-Definition item := (nat * nat)%type.
+Notation item := StripingPolicy.item.
 Definition khas (k : nat) (s : list item) : bool := existsb (fun x => Nat.eqb (fst x) k) s.
 Definition kget (k : nat) (s : list item) : option item := find (fun x => Nat.eqb (fst x) k) s.
 Definition kdel (k : nat) (s : list item) : list item := filter (fun x => negb (Nat.eqb (fst x) k)) s.
